@@ -277,6 +277,11 @@ def restart_part(ctx, prop, n):
                                      f"last run: job {j} was launched although job(s) {bad} it depends on did not succeed (no success marker) "
                                      f"[restart engine; workload {json.dumps(spec)}; seed {seed}]", case)
                     break
+            if prop == "C06" and last["futures"][j] == "DONE" and not marker[js["ident"]]:
+                ctx.monitor_fail("untruthful-done:after-restart",
+                                 f"last run: job {j} is final DONE but its process did not exit with status 0 (no success marker): waiting on it returns a state "
+                                 f"that does not tell what happened [restart engine; workload {json.dumps(spec)}; seed {seed}]", case)
+                break
             if prop == "C07":
                 if last["futures"][j] == "DONE" and not marker[js["ident"]]:
                     ctx.monitor_fail("failure-read-as-success:after-restart",
